@@ -38,7 +38,10 @@ ARG_TYPES = {
     # caller parameter name -> declared type
     "p_int": "int", "p_str": "str", "p_none": "None", "p_l1": "Literal[1]", "p_la": 'Literal["a"]',
     "p_u": "int | str", "p_opt": "int | None", "p_any": "Any", "p_u3": "int | str | None", "p_true": "Literal[True]",
+    # unions with an Any member (e.g. `unannotated if c else some_str`)
+    "p_any_str": "Any | str", "p_any_none": "Any | None",
 }
+DECLARE = {"p_any_str": "Union[Any, str]", "p_any_none": "Union[Any, None]"}
 TEST_TYPES = ["int", "str", "None", "bool", "Literal[1]", 'Literal["a"]', "int | str", "object", "int | None", "float"]
 LITS = ["None", "1", '"a"', "True", "0"]
 RS = ["R0", "R1", "R2", "R3"]
@@ -257,7 +260,7 @@ def judge(items, checker, col=None):
     lines = HEADER.rstrip("\n").split("\n")
     for i, (ev, calls) in enumerate(items):
         lines += render_evaluator(f"ev{i}", ev)
-    lines.append("def caller(" + ", ".join(f"{n}: {t}" for n, t in ARG_TYPES.items()) + ") -> None:")
+    lines.append("def caller(" + ", ".join(f"{n}: {DECLARE.get(n, t)}" for n, t in ARG_TYPES.items()) + ") -> None:")
     lmap = {}
     for i, (ev, calls) in enumerate(items):
         for j, call in enumerate(calls):
@@ -300,10 +303,17 @@ def judge(items, checker, col=None):
                 col.discarded += 1
             continue
         typed_call = {nm: (k, ARG_TYPES[a]) for nm, (k, a) in call.items()}
-        # an Any argument narrowed by is_of_type(..., exclude_any=False) becomes the tested type;
-        # the specification does not say how later conditions see it: skip those cases
-        any_params = {nm for nm, (k, t) in typed_call.items() if t == "Any"}
-        if any(c[0] == "oftype" and not c[3] and c[1] in any_params for c in flatten_conds(list(conds_of(ev["body"])))):
+        # an Any (member of the) argument narrowed by is_of_type(..., exclude_any=False) becomes the
+        # tested type; the specification does not say how *later* conditions on the same parameter see
+        # it, so such an evaluator is only used when that condition is the parameter's only one
+        any_params = {nm for nm, (k, t) in typed_call.items() if "Any" in members_of(t)}
+        all_conds = list(flatten_conds(list(conds_of(ev["body"]))))
+        ambiguous = False
+        for pn in any_params:
+            mine = [c for c in all_conds if len(c) > 1 and c[1] == pn or (c[0] == "kind" and c[2] == pn)]
+            if any(c[0] == "oftype" and not c[3] for c in mine) and len(mine) > 1:
+                ambiguous = True
+        if ambiguous:
             if col is not None:
                 col.skipped += 1
             continue
@@ -383,7 +393,7 @@ def call_strategy(draw, ev):
         if dflt is not None and draw(st.integers(0, 2)) == 0:
             keyword_mode = True
             continue
-        ok = [a for a, at in ARG_TYPES.items() if at == "Any" or all(included(m, t) for m in members_of(at))]
+        ok = [a for a, at in ARG_TYPES.items() if all(m == "Any" or included(m, t) for m in members_of(at))]
         a = draw(st.sampled_from(ok))
         if kind == "ko" or keyword_mode or draw(st.integers(0, 3)) == 0:
             call[nm] = ["KEYWORD", a]
